@@ -174,6 +174,7 @@ macro "ch_close" : tactic => `(tactic| first | rfl | (simp [*]; done) | (simp [*
 @[simp] theorem bal2_setCH : (setCH s h t).bal2 = s.bal2 := rfl
 @[simp] theorem supply2_setCH : (setCH s h t).supply2 = s.supply2 := rfl
 @[simp] theorem upgrade_setCH : (setCH s h t).upgrade = s.upgrade := rfl
+@[simp] theorem keyNodes_setCH : (setCH s h t).keyNodes = s.keyNodes := rfl
 @[simp] theorem cHeight_setCH : (setCH s h t).cHeight = h := rfl
 @[simp] theorem cTime_setCH : (setCH s h t).cTime = t := rfl
 
@@ -249,42 +250,43 @@ macro "ch_step" : tactic =>
 macro "ch_auto" : tactic => `(tactic| repeat' (first | rfl | ch_step))
 
 /-- a state with an empty check-state header -/
-def mk0 (x_bal : List (Addr × Int)) (x_supply : Int) (x_vals : List (Addr × Val)) (x_idx : List (Int × Addr)) (x_prev : List (Addr × Int)) (x_prevTot : Int) (x_queue : List (Int × List Addr)) (x_sign : List (Addr × Sign)) (x_missedBits : List ((Addr × Int) × Bool)) (x_awards : List (Addr × Int)) (x_burns : List (Addr × Int)) (x_proposer : Addr) (x_rel : List Addr) (x_p : Params) (x_acl : List (String × Addr)) (x_daoOwner : Addr) (x_pool : Addr) (x_feeAcc : Addr) (x_posAcc : Addr) (x_daoAcc : Addr) (x_keys : List (Nat × Addr)) (x_nStored : Nat) (x_height : Int) (x_time : Int) (x_index : List String) (x_blockTxs : List String) (x_bal2 : List (Addr × Int)) (x_supply2 : Int) (x_upgrade : Int × String) : State :=
-  { bal := x_bal, supply := x_supply, vals := x_vals, idx := x_idx, prev := x_prev, prevTot := x_prevTot, queue := x_queue, sign := x_sign, missedBits := x_missedBits, awards := x_awards, burns := x_burns, proposer := x_proposer, rel := x_rel, p := x_p, acl := x_acl, daoOwner := x_daoOwner, pool := x_pool, feeAcc := x_feeAcc, posAcc := x_posAcc, daoAcc := x_daoAcc, keys := x_keys, nStored := x_nStored, height := x_height, time := x_time, index := x_index, blockTxs := x_blockTxs, cHeight := 0, cTime := 0, bal2 := x_bal2, supply2 := x_supply2, upgrade := x_upgrade }
+def mk0 (x_bal : List (Addr × Int)) (x_supply : Int) (x_vals : List (Addr × Val)) (x_idx : List (Int × Addr)) (x_prev : List (Addr × Int)) (x_prevTot : Int) (x_queue : List (Int × List Addr)) (x_sign : List (Addr × Sign)) (x_missedBits : List ((Addr × Int) × Bool)) (x_awards : List (Addr × Int)) (x_burns : List (Addr × Int)) (x_proposer : Addr) (x_rel : List Addr) (x_p : Params) (x_acl : List (String × Addr)) (x_daoOwner : Addr) (x_pool : Addr) (x_feeAcc : Addr) (x_posAcc : Addr) (x_daoAcc : Addr) (x_keys : List (Nat × Addr)) (x_nStored : Nat) (x_height : Int) (x_time : Int) (x_index : List String) (x_blockTxs : List String) (x_bal2 : List (Addr × Int)) (x_supply2 : Int) (x_upgrade : Int × String) (x_keyNodes : List (Nat × Nat)) : State :=
+  { bal := x_bal, supply := x_supply, vals := x_vals, idx := x_idx, prev := x_prev, prevTot := x_prevTot, queue := x_queue, sign := x_sign, missedBits := x_missedBits, awards := x_awards, burns := x_burns, proposer := x_proposer, rel := x_rel, p := x_p, acl := x_acl, daoOwner := x_daoOwner, pool := x_pool, feeAcc := x_feeAcc, posAcc := x_posAcc, daoAcc := x_daoAcc, keys := x_keys, nStored := x_nStored, height := x_height, time := x_time, index := x_index, blockTxs := x_blockTxs, cHeight := 0, cTime := 0, bal2 := x_bal2, supply2 := x_supply2, upgrade := x_upgrade, keyNodes := x_keyNodes }
 section mk0
-variable (x_bal : List (Addr × Int)) (x_supply : Int) (x_vals : List (Addr × Val)) (x_idx : List (Int × Addr)) (x_prev : List (Addr × Int)) (x_prevTot : Int) (x_queue : List (Int × List Addr)) (x_sign : List (Addr × Sign)) (x_missedBits : List ((Addr × Int) × Bool)) (x_awards : List (Addr × Int)) (x_burns : List (Addr × Int)) (x_proposer : Addr) (x_rel : List Addr) (x_p : Params) (x_acl : List (String × Addr)) (x_daoOwner : Addr) (x_pool : Addr) (x_feeAcc : Addr) (x_posAcc : Addr) (x_daoAcc : Addr) (x_keys : List (Nat × Addr)) (x_nStored : Nat) (x_height : Int) (x_time : Int) (x_index : List String) (x_blockTxs : List String) (x_bal2 : List (Addr × Int)) (x_supply2 : Int) (x_upgrade : Int × String) (x_cHeight x_cTime : Int)
+variable (x_bal : List (Addr × Int)) (x_supply : Int) (x_vals : List (Addr × Val)) (x_idx : List (Int × Addr)) (x_prev : List (Addr × Int)) (x_prevTot : Int) (x_queue : List (Int × List Addr)) (x_sign : List (Addr × Sign)) (x_missedBits : List ((Addr × Int) × Bool)) (x_awards : List (Addr × Int)) (x_burns : List (Addr × Int)) (x_proposer : Addr) (x_rel : List Addr) (x_p : Params) (x_acl : List (String × Addr)) (x_daoOwner : Addr) (x_pool : Addr) (x_feeAcc : Addr) (x_posAcc : Addr) (x_daoAcc : Addr) (x_keys : List (Nat × Addr)) (x_nStored : Nat) (x_height : Int) (x_time : Int) (x_index : List String) (x_blockTxs : List String) (x_bal2 : List (Addr × Int)) (x_supply2 : Int) (x_upgrade : Int × String) (x_keyNodes : List (Nat × Nat)) (x_cHeight x_cTime : Int)
 theorem mk_eq :
-    State.mk x_bal x_supply x_vals x_idx x_prev x_prevTot x_queue x_sign x_missedBits x_awards x_burns x_proposer x_rel x_p x_acl x_daoOwner x_pool x_feeAcc x_posAcc x_daoAcc x_keys x_nStored x_height x_time x_cHeight x_cTime x_index x_blockTxs x_bal2 x_supply2 x_upgrade =
-      setCH (mk0 x_bal x_supply x_vals x_idx x_prev x_prevTot x_queue x_sign x_missedBits x_awards x_burns x_proposer x_rel x_p x_acl x_daoOwner x_pool x_feeAcc x_posAcc x_daoAcc x_keys x_nStored x_height x_time x_index x_blockTxs x_bal2 x_supply2 x_upgrade) x_cHeight x_cTime := rfl
-@[simp] theorem mk0_bal : (mk0 x_bal x_supply x_vals x_idx x_prev x_prevTot x_queue x_sign x_missedBits x_awards x_burns x_proposer x_rel x_p x_acl x_daoOwner x_pool x_feeAcc x_posAcc x_daoAcc x_keys x_nStored x_height x_time x_index x_blockTxs x_bal2 x_supply2 x_upgrade).bal = x_bal := rfl
-@[simp] theorem mk0_supply : (mk0 x_bal x_supply x_vals x_idx x_prev x_prevTot x_queue x_sign x_missedBits x_awards x_burns x_proposer x_rel x_p x_acl x_daoOwner x_pool x_feeAcc x_posAcc x_daoAcc x_keys x_nStored x_height x_time x_index x_blockTxs x_bal2 x_supply2 x_upgrade).supply = x_supply := rfl
-@[simp] theorem mk0_vals : (mk0 x_bal x_supply x_vals x_idx x_prev x_prevTot x_queue x_sign x_missedBits x_awards x_burns x_proposer x_rel x_p x_acl x_daoOwner x_pool x_feeAcc x_posAcc x_daoAcc x_keys x_nStored x_height x_time x_index x_blockTxs x_bal2 x_supply2 x_upgrade).vals = x_vals := rfl
-@[simp] theorem mk0_idx : (mk0 x_bal x_supply x_vals x_idx x_prev x_prevTot x_queue x_sign x_missedBits x_awards x_burns x_proposer x_rel x_p x_acl x_daoOwner x_pool x_feeAcc x_posAcc x_daoAcc x_keys x_nStored x_height x_time x_index x_blockTxs x_bal2 x_supply2 x_upgrade).idx = x_idx := rfl
-@[simp] theorem mk0_prev : (mk0 x_bal x_supply x_vals x_idx x_prev x_prevTot x_queue x_sign x_missedBits x_awards x_burns x_proposer x_rel x_p x_acl x_daoOwner x_pool x_feeAcc x_posAcc x_daoAcc x_keys x_nStored x_height x_time x_index x_blockTxs x_bal2 x_supply2 x_upgrade).prev = x_prev := rfl
-@[simp] theorem mk0_prevTot : (mk0 x_bal x_supply x_vals x_idx x_prev x_prevTot x_queue x_sign x_missedBits x_awards x_burns x_proposer x_rel x_p x_acl x_daoOwner x_pool x_feeAcc x_posAcc x_daoAcc x_keys x_nStored x_height x_time x_index x_blockTxs x_bal2 x_supply2 x_upgrade).prevTot = x_prevTot := rfl
-@[simp] theorem mk0_queue : (mk0 x_bal x_supply x_vals x_idx x_prev x_prevTot x_queue x_sign x_missedBits x_awards x_burns x_proposer x_rel x_p x_acl x_daoOwner x_pool x_feeAcc x_posAcc x_daoAcc x_keys x_nStored x_height x_time x_index x_blockTxs x_bal2 x_supply2 x_upgrade).queue = x_queue := rfl
-@[simp] theorem mk0_sign : (mk0 x_bal x_supply x_vals x_idx x_prev x_prevTot x_queue x_sign x_missedBits x_awards x_burns x_proposer x_rel x_p x_acl x_daoOwner x_pool x_feeAcc x_posAcc x_daoAcc x_keys x_nStored x_height x_time x_index x_blockTxs x_bal2 x_supply2 x_upgrade).sign = x_sign := rfl
-@[simp] theorem mk0_missedBits : (mk0 x_bal x_supply x_vals x_idx x_prev x_prevTot x_queue x_sign x_missedBits x_awards x_burns x_proposer x_rel x_p x_acl x_daoOwner x_pool x_feeAcc x_posAcc x_daoAcc x_keys x_nStored x_height x_time x_index x_blockTxs x_bal2 x_supply2 x_upgrade).missedBits = x_missedBits := rfl
-@[simp] theorem mk0_awards : (mk0 x_bal x_supply x_vals x_idx x_prev x_prevTot x_queue x_sign x_missedBits x_awards x_burns x_proposer x_rel x_p x_acl x_daoOwner x_pool x_feeAcc x_posAcc x_daoAcc x_keys x_nStored x_height x_time x_index x_blockTxs x_bal2 x_supply2 x_upgrade).awards = x_awards := rfl
-@[simp] theorem mk0_burns : (mk0 x_bal x_supply x_vals x_idx x_prev x_prevTot x_queue x_sign x_missedBits x_awards x_burns x_proposer x_rel x_p x_acl x_daoOwner x_pool x_feeAcc x_posAcc x_daoAcc x_keys x_nStored x_height x_time x_index x_blockTxs x_bal2 x_supply2 x_upgrade).burns = x_burns := rfl
-@[simp] theorem mk0_proposer : (mk0 x_bal x_supply x_vals x_idx x_prev x_prevTot x_queue x_sign x_missedBits x_awards x_burns x_proposer x_rel x_p x_acl x_daoOwner x_pool x_feeAcc x_posAcc x_daoAcc x_keys x_nStored x_height x_time x_index x_blockTxs x_bal2 x_supply2 x_upgrade).proposer = x_proposer := rfl
-@[simp] theorem mk0_rel : (mk0 x_bal x_supply x_vals x_idx x_prev x_prevTot x_queue x_sign x_missedBits x_awards x_burns x_proposer x_rel x_p x_acl x_daoOwner x_pool x_feeAcc x_posAcc x_daoAcc x_keys x_nStored x_height x_time x_index x_blockTxs x_bal2 x_supply2 x_upgrade).rel = x_rel := rfl
-@[simp] theorem mk0_p : (mk0 x_bal x_supply x_vals x_idx x_prev x_prevTot x_queue x_sign x_missedBits x_awards x_burns x_proposer x_rel x_p x_acl x_daoOwner x_pool x_feeAcc x_posAcc x_daoAcc x_keys x_nStored x_height x_time x_index x_blockTxs x_bal2 x_supply2 x_upgrade).p = x_p := rfl
-@[simp] theorem mk0_acl : (mk0 x_bal x_supply x_vals x_idx x_prev x_prevTot x_queue x_sign x_missedBits x_awards x_burns x_proposer x_rel x_p x_acl x_daoOwner x_pool x_feeAcc x_posAcc x_daoAcc x_keys x_nStored x_height x_time x_index x_blockTxs x_bal2 x_supply2 x_upgrade).acl = x_acl := rfl
-@[simp] theorem mk0_daoOwner : (mk0 x_bal x_supply x_vals x_idx x_prev x_prevTot x_queue x_sign x_missedBits x_awards x_burns x_proposer x_rel x_p x_acl x_daoOwner x_pool x_feeAcc x_posAcc x_daoAcc x_keys x_nStored x_height x_time x_index x_blockTxs x_bal2 x_supply2 x_upgrade).daoOwner = x_daoOwner := rfl
-@[simp] theorem mk0_pool : (mk0 x_bal x_supply x_vals x_idx x_prev x_prevTot x_queue x_sign x_missedBits x_awards x_burns x_proposer x_rel x_p x_acl x_daoOwner x_pool x_feeAcc x_posAcc x_daoAcc x_keys x_nStored x_height x_time x_index x_blockTxs x_bal2 x_supply2 x_upgrade).pool = x_pool := rfl
-@[simp] theorem mk0_feeAcc : (mk0 x_bal x_supply x_vals x_idx x_prev x_prevTot x_queue x_sign x_missedBits x_awards x_burns x_proposer x_rel x_p x_acl x_daoOwner x_pool x_feeAcc x_posAcc x_daoAcc x_keys x_nStored x_height x_time x_index x_blockTxs x_bal2 x_supply2 x_upgrade).feeAcc = x_feeAcc := rfl
-@[simp] theorem mk0_posAcc : (mk0 x_bal x_supply x_vals x_idx x_prev x_prevTot x_queue x_sign x_missedBits x_awards x_burns x_proposer x_rel x_p x_acl x_daoOwner x_pool x_feeAcc x_posAcc x_daoAcc x_keys x_nStored x_height x_time x_index x_blockTxs x_bal2 x_supply2 x_upgrade).posAcc = x_posAcc := rfl
-@[simp] theorem mk0_daoAcc : (mk0 x_bal x_supply x_vals x_idx x_prev x_prevTot x_queue x_sign x_missedBits x_awards x_burns x_proposer x_rel x_p x_acl x_daoOwner x_pool x_feeAcc x_posAcc x_daoAcc x_keys x_nStored x_height x_time x_index x_blockTxs x_bal2 x_supply2 x_upgrade).daoAcc = x_daoAcc := rfl
-@[simp] theorem mk0_keys : (mk0 x_bal x_supply x_vals x_idx x_prev x_prevTot x_queue x_sign x_missedBits x_awards x_burns x_proposer x_rel x_p x_acl x_daoOwner x_pool x_feeAcc x_posAcc x_daoAcc x_keys x_nStored x_height x_time x_index x_blockTxs x_bal2 x_supply2 x_upgrade).keys = x_keys := rfl
-@[simp] theorem mk0_nStored : (mk0 x_bal x_supply x_vals x_idx x_prev x_prevTot x_queue x_sign x_missedBits x_awards x_burns x_proposer x_rel x_p x_acl x_daoOwner x_pool x_feeAcc x_posAcc x_daoAcc x_keys x_nStored x_height x_time x_index x_blockTxs x_bal2 x_supply2 x_upgrade).nStored = x_nStored := rfl
-@[simp] theorem mk0_height : (mk0 x_bal x_supply x_vals x_idx x_prev x_prevTot x_queue x_sign x_missedBits x_awards x_burns x_proposer x_rel x_p x_acl x_daoOwner x_pool x_feeAcc x_posAcc x_daoAcc x_keys x_nStored x_height x_time x_index x_blockTxs x_bal2 x_supply2 x_upgrade).height = x_height := rfl
-@[simp] theorem mk0_time : (mk0 x_bal x_supply x_vals x_idx x_prev x_prevTot x_queue x_sign x_missedBits x_awards x_burns x_proposer x_rel x_p x_acl x_daoOwner x_pool x_feeAcc x_posAcc x_daoAcc x_keys x_nStored x_height x_time x_index x_blockTxs x_bal2 x_supply2 x_upgrade).time = x_time := rfl
-@[simp] theorem mk0_index : (mk0 x_bal x_supply x_vals x_idx x_prev x_prevTot x_queue x_sign x_missedBits x_awards x_burns x_proposer x_rel x_p x_acl x_daoOwner x_pool x_feeAcc x_posAcc x_daoAcc x_keys x_nStored x_height x_time x_index x_blockTxs x_bal2 x_supply2 x_upgrade).index = x_index := rfl
-@[simp] theorem mk0_blockTxs : (mk0 x_bal x_supply x_vals x_idx x_prev x_prevTot x_queue x_sign x_missedBits x_awards x_burns x_proposer x_rel x_p x_acl x_daoOwner x_pool x_feeAcc x_posAcc x_daoAcc x_keys x_nStored x_height x_time x_index x_blockTxs x_bal2 x_supply2 x_upgrade).blockTxs = x_blockTxs := rfl
-@[simp] theorem mk0_bal2 : (mk0 x_bal x_supply x_vals x_idx x_prev x_prevTot x_queue x_sign x_missedBits x_awards x_burns x_proposer x_rel x_p x_acl x_daoOwner x_pool x_feeAcc x_posAcc x_daoAcc x_keys x_nStored x_height x_time x_index x_blockTxs x_bal2 x_supply2 x_upgrade).bal2 = x_bal2 := rfl
-@[simp] theorem mk0_supply2 : (mk0 x_bal x_supply x_vals x_idx x_prev x_prevTot x_queue x_sign x_missedBits x_awards x_burns x_proposer x_rel x_p x_acl x_daoOwner x_pool x_feeAcc x_posAcc x_daoAcc x_keys x_nStored x_height x_time x_index x_blockTxs x_bal2 x_supply2 x_upgrade).supply2 = x_supply2 := rfl
-@[simp] theorem mk0_upgrade : (mk0 x_bal x_supply x_vals x_idx x_prev x_prevTot x_queue x_sign x_missedBits x_awards x_burns x_proposer x_rel x_p x_acl x_daoOwner x_pool x_feeAcc x_posAcc x_daoAcc x_keys x_nStored x_height x_time x_index x_blockTxs x_bal2 x_supply2 x_upgrade).upgrade = x_upgrade := rfl
+    State.mk x_bal x_supply x_vals x_idx x_prev x_prevTot x_queue x_sign x_missedBits x_awards x_burns x_proposer x_rel x_p x_acl x_daoOwner x_pool x_feeAcc x_posAcc x_daoAcc x_keys x_nStored x_height x_time x_cHeight x_cTime x_index x_blockTxs x_bal2 x_supply2 x_upgrade x_keyNodes =
+      setCH (mk0 x_bal x_supply x_vals x_idx x_prev x_prevTot x_queue x_sign x_missedBits x_awards x_burns x_proposer x_rel x_p x_acl x_daoOwner x_pool x_feeAcc x_posAcc x_daoAcc x_keys x_nStored x_height x_time x_index x_blockTxs x_bal2 x_supply2 x_upgrade x_keyNodes) x_cHeight x_cTime := rfl
+@[simp] theorem mk0_bal : (mk0 x_bal x_supply x_vals x_idx x_prev x_prevTot x_queue x_sign x_missedBits x_awards x_burns x_proposer x_rel x_p x_acl x_daoOwner x_pool x_feeAcc x_posAcc x_daoAcc x_keys x_nStored x_height x_time x_index x_blockTxs x_bal2 x_supply2 x_upgrade x_keyNodes).bal = x_bal := rfl
+@[simp] theorem mk0_supply : (mk0 x_bal x_supply x_vals x_idx x_prev x_prevTot x_queue x_sign x_missedBits x_awards x_burns x_proposer x_rel x_p x_acl x_daoOwner x_pool x_feeAcc x_posAcc x_daoAcc x_keys x_nStored x_height x_time x_index x_blockTxs x_bal2 x_supply2 x_upgrade x_keyNodes).supply = x_supply := rfl
+@[simp] theorem mk0_vals : (mk0 x_bal x_supply x_vals x_idx x_prev x_prevTot x_queue x_sign x_missedBits x_awards x_burns x_proposer x_rel x_p x_acl x_daoOwner x_pool x_feeAcc x_posAcc x_daoAcc x_keys x_nStored x_height x_time x_index x_blockTxs x_bal2 x_supply2 x_upgrade x_keyNodes).vals = x_vals := rfl
+@[simp] theorem mk0_idx : (mk0 x_bal x_supply x_vals x_idx x_prev x_prevTot x_queue x_sign x_missedBits x_awards x_burns x_proposer x_rel x_p x_acl x_daoOwner x_pool x_feeAcc x_posAcc x_daoAcc x_keys x_nStored x_height x_time x_index x_blockTxs x_bal2 x_supply2 x_upgrade x_keyNodes).idx = x_idx := rfl
+@[simp] theorem mk0_prev : (mk0 x_bal x_supply x_vals x_idx x_prev x_prevTot x_queue x_sign x_missedBits x_awards x_burns x_proposer x_rel x_p x_acl x_daoOwner x_pool x_feeAcc x_posAcc x_daoAcc x_keys x_nStored x_height x_time x_index x_blockTxs x_bal2 x_supply2 x_upgrade x_keyNodes).prev = x_prev := rfl
+@[simp] theorem mk0_prevTot : (mk0 x_bal x_supply x_vals x_idx x_prev x_prevTot x_queue x_sign x_missedBits x_awards x_burns x_proposer x_rel x_p x_acl x_daoOwner x_pool x_feeAcc x_posAcc x_daoAcc x_keys x_nStored x_height x_time x_index x_blockTxs x_bal2 x_supply2 x_upgrade x_keyNodes).prevTot = x_prevTot := rfl
+@[simp] theorem mk0_queue : (mk0 x_bal x_supply x_vals x_idx x_prev x_prevTot x_queue x_sign x_missedBits x_awards x_burns x_proposer x_rel x_p x_acl x_daoOwner x_pool x_feeAcc x_posAcc x_daoAcc x_keys x_nStored x_height x_time x_index x_blockTxs x_bal2 x_supply2 x_upgrade x_keyNodes).queue = x_queue := rfl
+@[simp] theorem mk0_sign : (mk0 x_bal x_supply x_vals x_idx x_prev x_prevTot x_queue x_sign x_missedBits x_awards x_burns x_proposer x_rel x_p x_acl x_daoOwner x_pool x_feeAcc x_posAcc x_daoAcc x_keys x_nStored x_height x_time x_index x_blockTxs x_bal2 x_supply2 x_upgrade x_keyNodes).sign = x_sign := rfl
+@[simp] theorem mk0_missedBits : (mk0 x_bal x_supply x_vals x_idx x_prev x_prevTot x_queue x_sign x_missedBits x_awards x_burns x_proposer x_rel x_p x_acl x_daoOwner x_pool x_feeAcc x_posAcc x_daoAcc x_keys x_nStored x_height x_time x_index x_blockTxs x_bal2 x_supply2 x_upgrade x_keyNodes).missedBits = x_missedBits := rfl
+@[simp] theorem mk0_awards : (mk0 x_bal x_supply x_vals x_idx x_prev x_prevTot x_queue x_sign x_missedBits x_awards x_burns x_proposer x_rel x_p x_acl x_daoOwner x_pool x_feeAcc x_posAcc x_daoAcc x_keys x_nStored x_height x_time x_index x_blockTxs x_bal2 x_supply2 x_upgrade x_keyNodes).awards = x_awards := rfl
+@[simp] theorem mk0_burns : (mk0 x_bal x_supply x_vals x_idx x_prev x_prevTot x_queue x_sign x_missedBits x_awards x_burns x_proposer x_rel x_p x_acl x_daoOwner x_pool x_feeAcc x_posAcc x_daoAcc x_keys x_nStored x_height x_time x_index x_blockTxs x_bal2 x_supply2 x_upgrade x_keyNodes).burns = x_burns := rfl
+@[simp] theorem mk0_proposer : (mk0 x_bal x_supply x_vals x_idx x_prev x_prevTot x_queue x_sign x_missedBits x_awards x_burns x_proposer x_rel x_p x_acl x_daoOwner x_pool x_feeAcc x_posAcc x_daoAcc x_keys x_nStored x_height x_time x_index x_blockTxs x_bal2 x_supply2 x_upgrade x_keyNodes).proposer = x_proposer := rfl
+@[simp] theorem mk0_rel : (mk0 x_bal x_supply x_vals x_idx x_prev x_prevTot x_queue x_sign x_missedBits x_awards x_burns x_proposer x_rel x_p x_acl x_daoOwner x_pool x_feeAcc x_posAcc x_daoAcc x_keys x_nStored x_height x_time x_index x_blockTxs x_bal2 x_supply2 x_upgrade x_keyNodes).rel = x_rel := rfl
+@[simp] theorem mk0_p : (mk0 x_bal x_supply x_vals x_idx x_prev x_prevTot x_queue x_sign x_missedBits x_awards x_burns x_proposer x_rel x_p x_acl x_daoOwner x_pool x_feeAcc x_posAcc x_daoAcc x_keys x_nStored x_height x_time x_index x_blockTxs x_bal2 x_supply2 x_upgrade x_keyNodes).p = x_p := rfl
+@[simp] theorem mk0_acl : (mk0 x_bal x_supply x_vals x_idx x_prev x_prevTot x_queue x_sign x_missedBits x_awards x_burns x_proposer x_rel x_p x_acl x_daoOwner x_pool x_feeAcc x_posAcc x_daoAcc x_keys x_nStored x_height x_time x_index x_blockTxs x_bal2 x_supply2 x_upgrade x_keyNodes).acl = x_acl := rfl
+@[simp] theorem mk0_daoOwner : (mk0 x_bal x_supply x_vals x_idx x_prev x_prevTot x_queue x_sign x_missedBits x_awards x_burns x_proposer x_rel x_p x_acl x_daoOwner x_pool x_feeAcc x_posAcc x_daoAcc x_keys x_nStored x_height x_time x_index x_blockTxs x_bal2 x_supply2 x_upgrade x_keyNodes).daoOwner = x_daoOwner := rfl
+@[simp] theorem mk0_pool : (mk0 x_bal x_supply x_vals x_idx x_prev x_prevTot x_queue x_sign x_missedBits x_awards x_burns x_proposer x_rel x_p x_acl x_daoOwner x_pool x_feeAcc x_posAcc x_daoAcc x_keys x_nStored x_height x_time x_index x_blockTxs x_bal2 x_supply2 x_upgrade x_keyNodes).pool = x_pool := rfl
+@[simp] theorem mk0_feeAcc : (mk0 x_bal x_supply x_vals x_idx x_prev x_prevTot x_queue x_sign x_missedBits x_awards x_burns x_proposer x_rel x_p x_acl x_daoOwner x_pool x_feeAcc x_posAcc x_daoAcc x_keys x_nStored x_height x_time x_index x_blockTxs x_bal2 x_supply2 x_upgrade x_keyNodes).feeAcc = x_feeAcc := rfl
+@[simp] theorem mk0_posAcc : (mk0 x_bal x_supply x_vals x_idx x_prev x_prevTot x_queue x_sign x_missedBits x_awards x_burns x_proposer x_rel x_p x_acl x_daoOwner x_pool x_feeAcc x_posAcc x_daoAcc x_keys x_nStored x_height x_time x_index x_blockTxs x_bal2 x_supply2 x_upgrade x_keyNodes).posAcc = x_posAcc := rfl
+@[simp] theorem mk0_daoAcc : (mk0 x_bal x_supply x_vals x_idx x_prev x_prevTot x_queue x_sign x_missedBits x_awards x_burns x_proposer x_rel x_p x_acl x_daoOwner x_pool x_feeAcc x_posAcc x_daoAcc x_keys x_nStored x_height x_time x_index x_blockTxs x_bal2 x_supply2 x_upgrade x_keyNodes).daoAcc = x_daoAcc := rfl
+@[simp] theorem mk0_keys : (mk0 x_bal x_supply x_vals x_idx x_prev x_prevTot x_queue x_sign x_missedBits x_awards x_burns x_proposer x_rel x_p x_acl x_daoOwner x_pool x_feeAcc x_posAcc x_daoAcc x_keys x_nStored x_height x_time x_index x_blockTxs x_bal2 x_supply2 x_upgrade x_keyNodes).keys = x_keys := rfl
+@[simp] theorem mk0_nStored : (mk0 x_bal x_supply x_vals x_idx x_prev x_prevTot x_queue x_sign x_missedBits x_awards x_burns x_proposer x_rel x_p x_acl x_daoOwner x_pool x_feeAcc x_posAcc x_daoAcc x_keys x_nStored x_height x_time x_index x_blockTxs x_bal2 x_supply2 x_upgrade x_keyNodes).nStored = x_nStored := rfl
+@[simp] theorem mk0_height : (mk0 x_bal x_supply x_vals x_idx x_prev x_prevTot x_queue x_sign x_missedBits x_awards x_burns x_proposer x_rel x_p x_acl x_daoOwner x_pool x_feeAcc x_posAcc x_daoAcc x_keys x_nStored x_height x_time x_index x_blockTxs x_bal2 x_supply2 x_upgrade x_keyNodes).height = x_height := rfl
+@[simp] theorem mk0_time : (mk0 x_bal x_supply x_vals x_idx x_prev x_prevTot x_queue x_sign x_missedBits x_awards x_burns x_proposer x_rel x_p x_acl x_daoOwner x_pool x_feeAcc x_posAcc x_daoAcc x_keys x_nStored x_height x_time x_index x_blockTxs x_bal2 x_supply2 x_upgrade x_keyNodes).time = x_time := rfl
+@[simp] theorem mk0_index : (mk0 x_bal x_supply x_vals x_idx x_prev x_prevTot x_queue x_sign x_missedBits x_awards x_burns x_proposer x_rel x_p x_acl x_daoOwner x_pool x_feeAcc x_posAcc x_daoAcc x_keys x_nStored x_height x_time x_index x_blockTxs x_bal2 x_supply2 x_upgrade x_keyNodes).index = x_index := rfl
+@[simp] theorem mk0_blockTxs : (mk0 x_bal x_supply x_vals x_idx x_prev x_prevTot x_queue x_sign x_missedBits x_awards x_burns x_proposer x_rel x_p x_acl x_daoOwner x_pool x_feeAcc x_posAcc x_daoAcc x_keys x_nStored x_height x_time x_index x_blockTxs x_bal2 x_supply2 x_upgrade x_keyNodes).blockTxs = x_blockTxs := rfl
+@[simp] theorem mk0_bal2 : (mk0 x_bal x_supply x_vals x_idx x_prev x_prevTot x_queue x_sign x_missedBits x_awards x_burns x_proposer x_rel x_p x_acl x_daoOwner x_pool x_feeAcc x_posAcc x_daoAcc x_keys x_nStored x_height x_time x_index x_blockTxs x_bal2 x_supply2 x_upgrade x_keyNodes).bal2 = x_bal2 := rfl
+@[simp] theorem mk0_supply2 : (mk0 x_bal x_supply x_vals x_idx x_prev x_prevTot x_queue x_sign x_missedBits x_awards x_burns x_proposer x_rel x_p x_acl x_daoOwner x_pool x_feeAcc x_posAcc x_daoAcc x_keys x_nStored x_height x_time x_index x_blockTxs x_bal2 x_supply2 x_upgrade x_keyNodes).supply2 = x_supply2 := rfl
+@[simp] theorem mk0_upgrade : (mk0 x_bal x_supply x_vals x_idx x_prev x_prevTot x_queue x_sign x_missedBits x_awards x_burns x_proposer x_rel x_p x_acl x_daoOwner x_pool x_feeAcc x_posAcc x_daoAcc x_keys x_nStored x_height x_time x_index x_blockTxs x_bal2 x_supply2 x_upgrade x_keyNodes).upgrade = x_upgrade := rfl
+@[simp] theorem mk0_keyNodes : (mk0 x_bal x_supply x_vals x_idx x_prev x_prevTot x_queue x_sign x_missedBits x_awards x_burns x_proposer x_rel x_p x_acl x_daoOwner x_pool x_feeAcc x_posAcc x_daoAcc x_keys x_nStored x_height x_time x_index x_blockTxs x_bal2 x_supply2 x_upgrade x_keyNodes).keyNodes = x_keyNodes := rfl
 end mk0
 
 @[simp] theorem map_map_setCH (o : Option State) (h' t' : Int) :
@@ -294,14 +296,14 @@ macro "ch_fields" : tactic => `(tactic| try dsimp +instances only [
   bal_setCH, supply_setCH, vals_setCH, idx_setCH, prev_setCH, prevTot_setCH, queue_setCH, sign_setCH, missedBits_setCH,
   awards_setCH, burns_setCH, proposer_setCH, rel_setCH, p_setCH, acl_setCH, daoOwner_setCH, pool_setCH, feeAcc_setCH,
   posAcc_setCH, daoAcc_setCH, keys_setCH, nStored_setCH, height_setCH, time_setCH, index_setCH, blockTxs_setCH,
-  cHeight_setCH, cTime_setCH, bal2_setCH, supply2_setCH, upgrade_setCH, keyAddr_setCH, balOf_setCH, balOf2_setCH])
+  cHeight_setCH, cTime_setCH, bal2_setCH, supply2_setCH, upgrade_setCH, keyNodes_setCH, keyAddr_setCH, balOf_setCH, balOf2_setCH])
 
 open Lean.Parser.Tactic in
 macro "ch_simp" "[" ts:simpLemma,* "]" : tactic => `(tactic| simp +instances only [mk_eq,
   bal_setCH, supply_setCH, vals_setCH, idx_setCH, prev_setCH, prevTot_setCH, queue_setCH, sign_setCH, missedBits_setCH,
   awards_setCH, burns_setCH, proposer_setCH, rel_setCH, p_setCH, acl_setCH, daoOwner_setCH, pool_setCH, feeAcc_setCH,
   posAcc_setCH, daoAcc_setCH, keys_setCH, nStored_setCH, height_setCH, time_setCH, index_setCH, blockTxs_setCH,
-  cHeight_setCH, cTime_setCH, bal2_setCH, supply2_setCH, upgrade_setCH, setCH_setCH, map_map_setCH, getD_map_setCH, ite_setCH,
+  cHeight_setCH, cTime_setCH, bal2_setCH, supply2_setCH, upgrade_setCH, keyNodes_setCH, setCH_setCH, map_map_setCH, getD_map_setCH, ite_setCH,
   keyAddr_setCH, balOf_setCH, setBal_setCH, send_setCH, balOf2_setCH, setBal2_setCH, send2_setCH, mint_setCH, burnFrom_setCH, setStaked_setCH, delStaked_setCH, setVal_setCH,
   enqueue_setCH, dequeue_setCH, forceUnstake_setCH, slash_setCH, jail_setCH,
   Option.map_none, Option.map_some, $ts,*])
@@ -527,9 +529,11 @@ theorem finishFold_setCH (l : List Addr) (o : Option State) :
 @[simp] theorem signer_setCH (m : Msg) : m.signer (setCH s h t) = m.signer s := by cases m <;> rfl
 @[simp] theorem sigValid_setCH (tx : Tx) (v : Addr) : tx.sigValid (setCH s h t) v = tx.sigValid s v := rfl
 
+@[simp] theorem sigDepthOK_setCH (k : Nat) : sigDepthOK (setCH s h t) k = sigDepthOK s k := rfl
+
 @[simp] theorem anteOK_setCH (tx : Tx) (sim : Bool) : anteOK (setCH s h t) tx sim = anteOK s tx sim := by
   unfold anteOK
-  ch_norm [signer_setCH, sigValid_setCH]
+  ch_norm [signer_setCH, sigValid_setCH, sigDepthOK_setCH]
 
 theorem runTx_deliver_setCH (tx : Tx) :
     runTx (setCH s h t) .deliver tx = (setCH (runTx s .deliver tx).1 h t, (runTx s .deliver tx).2) := by
